@@ -88,11 +88,12 @@ theorem delete_counterexample :
 
 /-- The part of the deletion clause that does hold: an instance issues a Delete only inside its own
     `StopWithContext{DeleteKey}`, and only if that call found it leading or an acquiring write of it was acknowledged
-    since the call began — never as a follower that owned nothing (the seeded changes C01-2 / C02-1 break this guard and
+    after its run had ended (a stop call had begun or the context passed to Start was cancelled: the promotion is
+    refused and the record is an orphan) — never as a follower that owned nothing (the seeded changes C01-2 / C02-1 break this guard and
     are rejected by the acceptor at the Delete's call). -/
 theorem delete_only_in_owner_shutdown {s s' : State} {t op i exp : Nat} {key : String} {val : Val}
     (h : stepCall s t op i .delete key exp val = .ok s') :
-    ∃ x, s.insts i = some x ∧ x.stopDel.isSome = true ∧ x.stopOwner = true ∧ key = x.cfg.key := by
+    ∃ x, s.insts i = some x ∧ x.stopDel.isSome = true ∧ (x.stopOwner = true ∨ x.awd = true) ∧ key = x.cfg.key := by
   unfold stepCall at h
   split at h
   · cases h
